@@ -54,8 +54,8 @@ def target(cfg, name):
     B = np.array([[0.7, 2.9, 4.5, 6.1], [1.4, 3.1, 0.3, 2.2], [2.2, 0.1, 1.8, 3.0]])[:d]
     if name == "A":
         return A.copy()
-    if name == "A1":  # differs from A by less than allclose's tolerance
-        return A + 2e-6
+    if name == "A1":  # differs from A by less than numpy.allclose's tolerance in every coordinate (relative shift)
+        return A * (1 + 3e-6)
     if name == "B":
         return B.copy()
     if name == "G":
